@@ -10,6 +10,11 @@ Definition s_len (s : slice) : N := lenN (bytes s).
 Definition s_first (s : slice) : option byte :=
   match bytes s with [] => None | b :: _ => Some b end.
 
+(* [s.len() < n], computed without measuring the whole slice (walks at most n cells);
+   [s_len_lt_spec] in Proofs/SliceLemmas.v: s_len_lt s n = (s_len s <? n) *)
+Definition s_len_lt (s : slice) (n : N) : bool :=
+  match splitN (bytes s) n with None => true | Some _ => false end.
+
 (* [split_at(n)]: panics when n > len *)
 Definition s_split (s : slice) (n : N) : out (slice * slice) :=
   match splitN (bytes s) n with
